@@ -36,8 +36,12 @@ fn registry() -> Vec<(&'static str, CheckFn, ReplayFn)> {
         ("C08", c08::check, c08::replay),
         ("C09", c09::check, c09::replay),
         ("C10", c10::check, c10::replay),
+        ("C11", c11::check, c11::replay),
+        ("C12", c12::check, c12::replay),
+        ("C13", c13::check, c13::replay),
         ("C14", c14::check, c14::replay),
         ("C15", c15::check, c15::replay),
+        ("C16", c16::check, c16::replay),
         ("C17", |t| e3::check(e3::Prop::C17, t), |v| e3::replay(e3::Prop::C17, v)),
         ("C18", c18::check, c18::replay),
         ("C19", c19::check, c19::replay),
